@@ -165,7 +165,7 @@ def record_reader(ctx, R, roles, T, rule="REC"):
     pt = T.term(f, pn, pc)
     # command id lookup
     wti = ctx.fold.need("constants", "FILESYNC_WIRE_TO_ID", rule)
-    cid = ("sub", ("c", wti), ("sub", hdr, ("c", 0)))
+    cid = ("sub", ("c", wti), ("proj", hdr, 0))
     stat_wire = b"STAT"
     for rn in g.live_nodes():
         if rn.kind == "stmt" and isinstance(rn.ast, ast.Return):
